@@ -16,7 +16,8 @@ Record case := mkCase {
   c_doc : json;
   c_canon : ccas;
   c_loaded : ccas;
-  c_variant : option json }.
+  c_variant : option json;
+  c_once : bool }.                 (* observed by identity: every loaded CAS holds one object per id (what the document shares is shared) *)
 
 Definition full_schema (user : schema) : schema :=
   user ++ filter (fun ti => negb (memb (ti_name ti) (map ti_name user))) builtin_schema.
@@ -80,6 +81,9 @@ Definition check_doc (s : schema) (mode : tsmode) (d : json) (want : ccas) : boo
             | _ => false end
      end.
 
+(* the reader model makes one object per id (Json.load_made: the ids under which _parse_feature_structure made an object) *)
+Definition made_once (s : schema) (d : json) : bool := match load_made std_lex s d with Ok l => znodup l | _ => false end.
+
 Definition check_case (c : case) : bool :=
   let s := full_schema (c_user c) in
   match c_builtin c with Some b => list_eqb tinfo_eqb b builtin_schema | None => true end
@@ -89,8 +93,10 @@ Definition check_case (c : case) : bool :=
      | _ => false
      end
   && res_ccas_eqb (load_json std_lex s (c_doc c)) (c_loaded c)
+  && Bool.eqb (made_once s (c_doc c)) (c_once c)
   && match c_variant c with
      | Some v => check_doc s (c_mode c) v (c_canon c) && res_ccas_eqb (load_json std_lex s v) (c_loaded c)
+                 && Bool.eqb (made_once s v) (c_once c)
      | None => true
      end.
 
@@ -106,7 +112,9 @@ Definition explain (c : case) : list bool :=
     match save_json std_lex s (c_mode c) (c_cas c) with Ok (d, c') => res_ccas_eqb (canon_json s c') (c_canon c) | _ => false end;
     res_ccas_eqb (load_json std_lex s (c_doc c)) (c_loaded c);
     match c_variant c with Some v => check_doc s (c_mode c) v (c_canon c) | None => true end;
-    match c_variant c with Some v => res_ccas_eqb (load_json std_lex s v) (c_loaded c) | None => true end ].
+    match c_variant c with Some v => res_ccas_eqb (load_json std_lex s v) (c_loaded c) | None => true end;
+    Bool.eqb (made_once s (c_doc c)) (c_once c);
+    match c_variant c with Some v => Bool.eqb (made_once s v) (c_once c) | None => true end ].
 
 (* the boolean premises of the theorems in Props/C02.v, on the CAS the writer model leaves behind (wf_jsonb, ids_distinctb,
    refs_wfb from Json.v; typed_jsonb from JsonWf.v); the lexical contract is tested on the texts and byte arrays of the case *)
